@@ -5,7 +5,7 @@ import math
 
 from ..core import Scenario, Suite
 
-SWEEP = [0, 1, 2, 5, 10, 20, 33, 50, 75, 100]
+SWEEP = [0, 1, 2, 5, 10, 20, 33, 50, 75, 100, 101, 150, 400, 100000]
 
 
 # ---- independent reference (first principles) used by the monitors
